@@ -105,8 +105,7 @@ def parseProg (req : SExp) : Option (Prog Rat) := do
 /-- aggregators available to the model side of the autojac correspondence -/
 def parseAgg : List SExp → Option (Mat Rat → Except Err (Vec Rat))
   | [atom "sum"] => some sumAgg
-  | [atom "mean"] => some fun J =>
-      .ok (combine (ncols J) J (List.replicate J.length (1 / (J.length : Rat))))
+  | [atom "mean"] => some meanAgg
   | [atom "const", w] => do
       let w ← ratList? w
       pure (constAgg w)
@@ -149,9 +148,15 @@ def outcomeS (o : Outcome Rat) (report : List Nat) : SExp :=
         list [atom "grads", gradsS o.grads report],
         list [atom "sweeps", sweepsS o.sweeps]]
 
+/-- optional request field `(frozen k…)`: leaves switched to `requires_grad=False` after the forward pass -/
+def parseFrozen (req : SExp) : List Nat :=
+  match req.field1? "frozen" with
+  | some e => (natList? e).getD []
+  | none => []
+
 def handleBackward (req : SExp) : Option SExp := do
   let p ← parseProg req
-  let (E, _) := p.engine
+  let E := (p.engine.1).freeze (parseFrozen req)
   let tensors ← natList? (← req.field1? "tensors")
   let inputs ← natList? (← req.field1? "inputs")
   let A ← parseAgg (← req.field? "agg")
@@ -163,7 +168,8 @@ def handleBackward (req : SExp) : Option SExp := do
 
 def handleMtl (req : SExp) : Option SExp := do
   let p ← parseProg req
-  let (E, ndim) := p.engine
+  let (E0, ndim) := p.engine
+  let E := E0.freeze (parseFrozen req)
   let losses ← natList? (← req.field1? "losses")
   let features ← natList? (← req.field1? "features")
   let tps ← (← req.field? "tasks").mapM natList?
